@@ -5,21 +5,21 @@ namespace Verif.C15
 set_option linter.unusedSimpArgs false
 
 theorem canonItems_isNil : ∀ vs : Items, (canonItems vs).isNil = vs.isNil
-  | .nil => by simp [canonTerm, canonVal, canonFeat, canonItems, canonEnd, canonTerms, canonFeats, Items.isNil, Items.length, isAvmLike]
-  | .cons _ _ => by simp [canonTerm, canonVal, canonFeat, canonItems, canonEnd, canonTerms, canonFeats, Items.isNil, Items.length, isAvmLike]
+  | .nil => by simp [canonTerm, canonVal, canonItems, canonEnd, canonTerms, canonFeats, Items.isNil, Items.length, isAvmLike]
+  | .cons _ _ => by simp [canonTerm, canonVal, canonItems, canonEnd, canonTerms, canonFeats, Items.isNil, Items.length, isAvmLike]
 
 theorem canonItems_length : ∀ vs : Items, (canonItems vs).length = vs.length
-  | .nil => by simp [canonTerm, canonVal, canonFeat, canonItems, canonEnd, canonTerms, canonFeats, Items.isNil, Items.length, isAvmLike]
+  | .nil => by simp [canonTerm, canonVal, canonItems, canonEnd, canonTerms, canonFeats, Items.isNil, Items.length, isAvmLike]
   | .cons _ vs => by simp [canonItems, Items.length, canonItems_length vs]
 
 /-! ### expanded features are unchanged -/
 
 mutual
 theorem expand_canonTerm : ∀ (t : Term) (pre : List Str), expandTerm pre (canonTerm t) = expandTerm pre t
-  | .ident _ _, _ => by simp [canonTerm, canonVal, canonFeat, canonItems, canonEnd, canonTerms, canonFeats, Items.isNil, Items.length, isAvmLike]
-  | .str _ _, _ => by simp [canonTerm, canonVal, canonFeat, canonItems, canonEnd, canonTerms, canonFeats, Items.isNil, Items.length, isAvmLike]
-  | .regex _ _, _ => by simp [canonTerm, canonVal, canonFeat, canonItems, canonEnd, canonTerms, canonFeats, Items.isNil, Items.length, isAvmLike]
-  | .coref _ _, _ => by simp [canonTerm, canonVal, canonFeat, canonItems, canonEnd, canonTerms, canonFeats, Items.isNil, Items.length, isAvmLike]
+  | .ident _ _, _ => by simp [canonTerm, canonVal, canonItems, canonEnd, canonTerms, canonFeats, Items.isNil, Items.length, isAvmLike]
+  | .str _ _, _ => by simp [canonTerm, canonVal, canonItems, canonEnd, canonTerms, canonFeats, Items.isNil, Items.length, isAvmLike]
+  | .regex _ _, _ => by simp [canonTerm, canonVal, canonItems, canonEnd, canonTerms, canonFeats, Items.isNil, Items.length, isAvmLike]
+  | .coref _ _, _ => by simp [canonTerm, canonVal, canonItems, canonEnd, canonTerms, canonFeats, Items.isNil, Items.length, isAvmLike]
   | .avm _ fs, pre => by simp only [canonTerm, expandTerm]; exact expand_canonFeats fs pre
   | .cons _ vs e, pre => by
     simp only [canonTerm, expandTerm, canonItems_isNil, canonItems_length]
@@ -29,45 +29,32 @@ theorem expand_canonTerm : ∀ (t : Term) (pre : List Str), expandTerm pre (cano
     rw [expand_canonItems vs _]
 theorem expand_canonVal : ∀ (v : Val) (pre : List Str), expandVal pre (canonVal v) = expandVal pre v
   | .term t, pre => by simp only [canonVal, expandVal]; exact expand_canonTerm t pre
-  | .conj .nil, _ => by simp [canonTerm, canonVal, canonFeat, canonItems, canonEnd, canonTerms, canonFeats, Items.isNil, Items.length, isAvmLike]
+  | .conj .nil, _ => by simp [canonTerm, canonVal, canonItems, canonEnd, canonTerms, canonFeats, Items.isNil, Items.length, isAvmLike]
   | .conj (.cons t .nil), pre => by
     simp only [canonVal, expandVal, expandTerms, List.append_nil]; exact expand_canonTerm t pre
   | .conj (.cons t (.cons t2 ts)), pre => by
     simp only [canonVal, expandVal]; exact expand_canonTerms (.cons t (.cons t2 ts)) pre
 theorem expand_canonTerms : ∀ (ts : Terms) (pre : List Str), expandTerms pre (canonTerms ts) = expandTerms pre ts
-  | .nil, _ => by simp [canonTerm, canonVal, canonFeat, canonItems, canonEnd, canonTerms, canonFeats, Items.isNil, Items.length, isAvmLike]
+  | .nil, _ => by simp [canonTerm, canonVal, canonItems, canonEnd, canonTerms, canonFeats, Items.isNil, Items.length, isAvmLike]
   | .cons t ts, pre => by
     simp only [canonTerms, expandTerms]; rw [expand_canonTerm t pre, expand_canonTerms ts pre]
-theorem expand_canonFeat : ∀ (v : Val) (pre : List Str), expandVal pre (canonFeat v) = expandVal pre v
-  | .term (.avm _ (.cons k2 v2 .nil)), pre => by
-    simp only [canonFeat, expandVal, expandTerm, expandFeats]; rw [expand_canonFeat v2 _]
-  | .term (.avm d .nil), pre => by simp only [canonFeat]; exact expand_canonVal _ pre
-  | .term (.avm d (.cons k2 v2 (.cons k3 v3 fs))), pre => by
-    simp only [canonFeat]; exact expand_canonVal _ pre
-  | .term (.ident _ _), _ => by simp [canonTerm, canonVal, canonFeat, canonItems, canonEnd, canonTerms, canonFeats, Items.isNil, Items.length, isAvmLike]
-  | .term (.str _ _), _ => by simp [canonTerm, canonVal, canonFeat, canonItems, canonEnd, canonTerms, canonFeats, Items.isNil, Items.length, isAvmLike]
-  | .term (.regex _ _), _ => by simp [canonTerm, canonVal, canonFeat, canonItems, canonEnd, canonTerms, canonFeats, Items.isNil, Items.length, isAvmLike]
-  | .term (.coref _ _), _ => by simp [canonTerm, canonVal, canonFeat, canonItems, canonEnd, canonTerms, canonFeats, Items.isNil, Items.length, isAvmLike]
-  | .term (.cons d vs e), pre => by simp only [canonFeat]; exact expand_canonVal _ pre
-  | .term (.diff d vs), pre => by simp only [canonFeat]; exact expand_canonVal _ pre
-  | .conj ts, pre => by simp only [canonFeat]; exact expand_canonVal _ pre
 theorem expand_canonFeats : ∀ (fs : Feats) (pre : List Str), expandFeats pre (canonFeats fs) = expandFeats pre fs
-  | .nil, _ => by simp [canonTerm, canonVal, canonFeat, canonItems, canonEnd, canonTerms, canonFeats, Items.isNil, Items.length, isAvmLike]
+  | .nil, _ => by simp [canonTerm, canonVal, canonItems, canonEnd, canonTerms, canonFeats, Items.isNil, Items.length, isAvmLike]
   | .cons k v fs, pre => by
-    simp only [canonFeats, expandFeats]; rw [expand_canonFeat v _, expand_canonFeats fs pre]
+    simp only [canonFeats, expandFeats]; rw [expand_canonVal v _, expand_canonFeats fs pre]
 theorem expand_canonItems : ∀ (vs : Items) (pre : List Str), expandItems pre (canonItems vs) = expandItems pre vs
-  | .nil, _ => by simp [canonTerm, canonVal, canonFeat, canonItems, canonEnd, canonTerms, canonFeats, Items.isNil, Items.length, isAvmLike]
+  | .nil, _ => by simp [canonTerm, canonVal, canonItems, canonEnd, canonTerms, canonFeats, Items.isNil, Items.length, isAvmLike]
   | .cons v vs, pre => by
     simp only [canonItems, expandItems]; rw [expand_canonVal v _, expand_canonItems vs _]
 theorem expand_canonEnd : ∀ (e : End) (pre : List Str) (emp : Bool),
     expandEnd pre emp (canonEnd e) = expandEnd pre emp e
-  | .closed, _, _ => by simp [canonTerm, canonVal, canonFeat, canonItems, canonEnd, canonTerms, canonFeats, Items.isNil, Items.length, isAvmLike]
-  | .opn, _, _ => by simp [canonTerm, canonVal, canonFeat, canonItems, canonEnd, canonTerms, canonFeats, Items.isNil, Items.length, isAvmLike]
+  | .closed, _, _ => by simp [canonTerm, canonVal, canonItems, canonEnd, canonTerms, canonFeats, Items.isNil, Items.length, isAvmLike]
+  | .opn, _, _ => by simp [canonTerm, canonVal, canonItems, canonEnd, canonTerms, canonFeats, Items.isNil, Items.length, isAvmLike]
   | .dotted v, pre, _ => by simp only [canonEnd, expandEnd]; exact expand_canonVal v pre
 end
 
 theorem expandTop_canon : ∀ ts : Terms, expandTop (canonTerms ts) = expandTop ts
-  | .nil => by simp [canonTerm, canonVal, canonFeat, canonItems, canonEnd, canonTerms, canonFeats, Items.isNil, Items.length, isAvmLike]
+  | .nil => by simp [canonTerm, canonVal, canonItems, canonEnd, canonTerms, canonFeats, Items.isNil, Items.length, isAvmLike]
   | .cons t ts => by
     have h : isAvmLike (canonTerm t) = isAvmLike t := by cases t <;> simp [canonTerm, isAvmLike]
     simp only [canonTerms, expandTop, h, expand_canonTerm t [], expandTop_canon ts]
